@@ -145,3 +145,106 @@ pub fn cache_pressure_image() -> (Vec<u8>, String) {
   support::stamp_header(&mut image, 0x13, 0x06, 0x03);
   (image, "cache pressure: 127 banks x 64 distinct routines of 200-239 instructions, called once each".to_string())
 }
+
+/// Interrupt dispatches whose own push cancels them: with IE = IF = timer only, SP = 0x0000
+/// puts the high byte of the pushed PC (0x01: all of this code lies in 0x0150-0x01FF) on IE,
+/// SP = 0xFF10 puts it on IF; either way nothing is pending any more and the dispatch ends at
+/// 0x0000 - after the same five machine cycles as any other (`high` selects where the code
+/// lies, so that the byte that lands on IE/IF varies; both must leave bit 2 clear). A third
+/// dispatch per round, with SP in work RAM, goes to its vector as usual. 0x0000 and the
+/// vectors hold JP (HL); HL is loaded with the continuation before every EI.
+pub fn cancelled_dispatch_image(high: u8) -> (Vec<u8>, String) {
+  assert!(high & 0x04 == 0 && high >= 0x01 && high < 0x40);
+  let mut image = support::make_image(0x00, 0x00, 0x00);
+  for i in 0..image.len() {
+    image[i] = [0x76u8, 0x18, 0xfd, 0x00][i & 3];
+  }
+  for v in [0x00usize, 0x40, 0x48, 0x50, 0x58, 0x60].iter() {
+    image[*v] = 0xe9; // JP (HL)
+  }
+  let org: u16 = if high == 0x01 { 0x0150 } else { (high as u16) << 8 };
+  let mut a = Asm::new(org);
+  // three rounds laid out one after the other; every one ends in a self loop that only a
+  // dispatch leaves, and names the next one in HL
+  let sps: [u16; 3] = [0x0000, 0xff10, 0xd000];
+  let round_len = 24u16;
+  for (k, &sp) in sps.iter().enumerate() {
+    let start = a.here();
+    let next = if k == 2 { org } else { start + round_len };
+    a.b(&[0xf3]); // DI
+    a.ld_a(0x04);
+    a.ldh_to(0xff); // IE = timer
+    a.ld_a(0x04);
+    a.ldh_to(0x0f); // IF = timer
+    a.ld_hl(next);
+    a.b(&[0x31, sp as u8, (sp >> 8) as u8]); // LD SP,sp
+    a.b(&[0xfb, 0x00, 0x3c, 0x00]); // EI; NOP; INC A; NOP
+    a.b(&[0x18, 0xfe]); // JR self
+    while a.here() < start + round_len {
+      a.b(&[0x00]);
+    }
+    assert_eq!(a.here(), start + round_len);
+  }
+  image[org as usize..org as usize + a.bytes.len()].copy_from_slice(&a.bytes);
+  support::stamp_header(&mut image, 0x00, 0x00, 0x00);
+  if high != 0x01 {
+    image[0x102] = 0x00;
+    image[0x103] = high;
+    image[0x14d] = support::header_checksum(&image);
+  }
+  (image, format!("cancelled dispatches: IE=IF=timer, EI with SP=0x0000 / 0xFF10 / 0xD000 in turn, code at {:04X} (the pushed high byte {:02X} lands on IE, on IF, in work RAM)", org, high))
+}
+
+/// Every relative-jump displacement inside a running program (MBC1, 16 banks): 753 sites,
+/// each `XOR A; JR/JR Z/JR NC d` with a `JP <next site>` at the target, for every d in
+/// 0..=127 and -128..=-6 (the others would land on the jump itself) under three rotations of
+/// the opcode; 60 sites per bank, bank 0 maps the next bank in after each.
+pub fn jr_ladder_image() -> (Vec<u8>, String) {
+  let mut image = support::make_image(0x01, 0x03, 0x00);
+  for i in 0..image.len() {
+    image[i] = [0x76u8, 0x18, 0xfd, 0x00][i & 3];
+  }
+  let ds: Vec<i32> = (0..=127).chain(-128..=-6).collect();
+  const OPS: [u8; 3] = [0x18, 0x28, 0x30];
+  const PER_BANK: usize = 60;
+  const BLK: usize = 0x110;
+  let total = ds.len() * 3;
+  let mut a = Asm::new(0x0150);
+  a.b(&[0xf3, 0x31, 0xf0, 0xdf, 0x06, 0x01]); // DI; LD SP,0xDFF0; LD B,1
+  let next_bank = a.here();
+  a.b(&[0x78]); // LD A,B
+  a.ld_a_to(0x2100);
+  a.b(&[0x04]); // INC B
+  a.jp(0x4000);
+  let end = a.here();
+  a.b(&[0x76, 0x18, 0xfd]);
+  image[0x0150..0x0150 + a.bytes.len()].copy_from_slice(&a.bytes);
+  let entry = |i: usize| -> u16 { (0x4000 + (i % PER_BANK) * BLK + 0x87) as u16 };
+  for n in 0..total {
+    let bank = 1 + n / PER_BANK;
+    let base = bank * 0x4000 - 0x4000; // file offset of guest address 0x4000 in this bank is bank*0x4000
+    let off = |guest: usize| -> usize { base + guest };
+    let blk = 0x4000 + (n % PER_BANK) * BLK;
+    let s = blk + 0x88;
+    let d = ds[n % ds.len()];
+    let op = OPS[(n + n / ds.len()) % 3];
+    if n % PER_BANK == 0 {
+      let e = entry(n);
+      image[off(0x4000)..off(0x4003)].copy_from_slice(&[0xc3, e as u8, (e >> 8) as u8]);
+    }
+    image[off(s - 1)] = 0xaf; // XOR A: Z set, C clear - all three forms are taken
+    image[off(s)] = op;
+    image[off(s + 1)] = d as u8;
+    let t = (s as i32 + 2 + d) as usize;
+    let next: u16 = if n + 1 == total {
+      end
+    } else if (n + 1) % PER_BANK == 0 {
+      next_bank
+    } else {
+      entry(n + 1)
+    };
+    image[off(t)..off(t + 3)].copy_from_slice(&[0xc3, next as u8, (next >> 8) as u8]);
+  }
+  support::stamp_header(&mut image, 0x01, 0x03, 0x00);
+  (image, format!("relative-jump ladder: {} sites XOR A; JR/JR Z/JR NC d; JP next - every displacement 0..127 and -128..-6 under each opcode, 60 sites per bank", total))
+}
